@@ -249,6 +249,8 @@ def _hist_subsearches():
                        ([['export_all', 'Q'], ['export_all', 'A']], ['A', 'Q']), ([['export_all', 'A'], ['export_all', 'Q']], ['A', 'Q']),
                        ([['export_all', 'DM'], ['export_all', 'B']], ['B', 'DM']), ([['export_all', 'B'], ['export_all', 'DM']], ['B', 'DM']),
                        ([['export_all', 'DM'], ['export_all', 'A'], ['export_all', 'B']], ['A', 'B', 'DM']),
+                       ([['export_all', 'UN'], ['export_all', 'A']], ['A', 'UN']), ([['export_all', 'A'], ['export_all', 'UN'], ['export_all', 'B']], ['A', 'B', 'UN']),
+                       ([['export_all', 'UN'], ['export_all', 'DM'], ['export_all', 'A']], ['A', 'DM', 'UN']),
                        ([['export_all', 'Z'], ['export_all', 'Q'], ['export_all', 'B']], None)):
             if tys is None:
                 continue
